@@ -627,6 +627,35 @@ func runC03(c *Ctx) {
 						}
 					})
 				}
+				if !isLoad {
+					// the very value that was just stored into Slot.Events (kept in a local): the last store that reaches the
+					// call stored this value
+					var last *ssa.Store
+					eachInstr(fn, func(x ssa.Instruction) {
+						st, ok := x.(*ssa.Store)
+						if !ok {
+							return
+						}
+						if fv, _ := fieldAddrOf(st.Addr); fv != eventsF || !dominatesInstr(st, in) {
+							return
+						}
+						if last == nil || dominatesInstr(last, st) {
+							last = st
+						}
+					})
+					if last != nil && stripConv(last.Val) == mask {
+						fresh = true
+						eachInstr(fn, func(x ssa.Instruction) {
+							st, ok := x.(*ssa.Store)
+							if !ok || st == last {
+								return
+							}
+							if fv, _ := fieldAddrOf(st.Addr); fv == eventsF && reachesFrom(last, st) && reachesFrom(st, in) {
+								fresh = false
+							}
+						})
+					}
+				}
 				c.check(fresh, fn, "kernel mask", in.Pos(), "epoll is programmed with the current Slot.Events", "the mask handed to epoll_ctl is not the slot's current interest mask (it is "+exprString(mask, nil, 0)+"): the kernel watches a direction the slot no longer records, or stops watching one that is still in flight - that operation's callback never runs although the descriptor is ready")
 			}
 		}
@@ -834,7 +863,7 @@ func runC03(c *Ctx) {
 				}
 			}
 		})
-		pfn := p.Method("internal", "poller", "Poll")
+		pfn, _ := pollCore(c, p)
 		n := 0
 		for _, r := range returnsOf(pfn) {
 			e := resolveCell(r.Results[1])
@@ -884,8 +913,7 @@ func runC03(c *Ctx) {
 	}
 	{
 		// (*poller).Poll: ErrTimeout exactly under n == 0 && timeout >= 0; final return yields the kernel count
-		fn := p.Method("internal", "poller", "Poll")
-		timeoutParam := fn.Params[1]
+		fn, timeoutParam := pollCore(c, p)
 		seen := 0
 		for _, r := range returnsOf(fn) {
 			e := resolveCell(r.Results[1])
@@ -914,6 +942,9 @@ func runC03(c *Ctx) {
 		// the return reached after dispatching reports the kernel's count
 		for _, r := range returnsOf(fn) {
 			if !isNil(resolveCell(r.Results[1])) {
+				continue
+			}
+			if fn != p.Method("internal", "poller", "Poll") && isConstInt(r.Results[0], 0) {
 				continue
 			}
 			c.check(isSyscallCount(r.Results[0]), fn, "return n", r.Pos(), "returns the number of events the kernel reported", "the count returned after dispatching is not the kernel's event count")
@@ -1033,4 +1064,56 @@ func isSyscallCount(v ssa.Value) bool {
 	}
 	callee := call.Call.StaticCallee()
 	return callee != nil && callee.Pkg != nil && callee.Pkg.Pkg.Path() == "syscall" && (callee.Name() == "Syscall6" || callee.Name() == "Syscall" || callee.Name() == "EpollWait")
+}
+
+// pollCore: the function that performs the wait and translates its outcome - Poll itself, or the unexported helper Poll
+// delegates the wait to. In the second case Poll must forward the helper's (n, err) unchanged: `return n, err` on the
+// error edge and `return n, nil` after dispatching. Returns the function and its timeout parameter.
+func pollCore(c *Ctx, p *Prog) (*ssa.Function, *ssa.Parameter) {
+	poll := p.Method("internal", "poller", "Poll")
+	hasWait := func(fn *ssa.Function) bool {
+		found := false
+		eachInstr(fn, func(in ssa.Instruction) {
+			if ex, ok := in.(*ssa.Extract); ok && ex.Index == 2 {
+				if call, ok := ex.Tuple.(*ssa.Call); ok && call.Call.StaticCallee() != nil && call.Call.StaticCallee().Pkg != nil && call.Call.StaticCallee().Pkg.Pkg.Path() == "syscall" {
+					found = true
+				}
+			}
+		})
+		return found
+	}
+	if hasWait(poll) {
+		return poll, poll.Params[1]
+	}
+	for _, call := range allCalls(poll) {
+		h := call.Call.StaticCallee()
+		if !isHelperOf(poll, h) || !hasWait(h) {
+			continue
+		}
+		// the timeout is handed on
+		var tprm *ssa.Parameter
+		for i, a := range call.Call.Args {
+			if stripConv(a) == ssa.Value(poll.Params[1]) && i < len(h.Params) {
+				tprm = h.Params[i]
+			}
+		}
+		nv, ev := extractOf(call, 0), extractOf(call, 1)
+		forwardsErr, forwardsN := false, false
+		for _, r := range returnsOf(poll) {
+			if len(r.Results) != 2 {
+				continue
+			}
+			if stripConv(resolveCell(r.Results[1])) == ev && stripConv(resolveCell(r.Results[0])) == nv && ev != nil {
+				forwardsErr = true
+			}
+			if isNil(resolveCell(r.Results[1])) && stripConv(resolveCell(r.Results[0])) == nv && guardedNil(r.Block(), ev) {
+				forwardsN = true
+			}
+		}
+		c.check(tprm != nil && forwardsErr && forwardsN, poll, "forwards the wait", call.Pos(), "Poll hands the timeout to the wait helper and returns its count and error unchanged", "Poll does not forward the outcome of its wait helper unchanged (timeout passed on, `n, err` on the error edge, `n, nil` after dispatching): the errno / ErrTimeout / count contract with (*IO).poll is broken")
+		if tprm != nil {
+			return h, tprm
+		}
+	}
+	return poll, poll.Params[1]
 }
